@@ -51,7 +51,7 @@ META = {
             "value, that its rendering is valid JSON deriving exactly that tree; equality of the rendering with encoding/json's output "
             "is by correspondence only. "
             "(5) end to end: the pipeline model's codec parameter instantiated with the IPFIX / NetFlow v9 decoder models and the marshal model "
-            "(ipfix_published_end_to_end, v9_published_end_to_end, ipfix_published_current_source, ipfix_wellformed_published): for any number of workers "
+            "(ipfix_published_end_to_end, v9_published_end_to_end, ipfix_published_current_source, ipfix_wellformed_published, v9_wellformed_published): for any number of workers "
             "running the worker loop extracted from the current source, any datagram sequence and every schedule, every payload handed to the message queue "
             "is render of the message tree of the decode of ONE received datagram's own octets and is accepted by the JSON scanner; for a datagram that "
             "encodes a well-formed message (Spec.Wire) the tree is that of exactly the message's records. "
